@@ -259,7 +259,9 @@ def gen_types(module_texts, type_names, outdir, opts=(), flavour='asan', defines
     `verif_types[]` (name -> descriptor). Returns dict(lib=, cflags=, ldflags=, gen=) or raises."""
     r = run_asn1c(module_texts, outdir, opts=opts)
     if r.returncode != 0:
-        raise BuildError('asn1c failed (%d): %s' % (r.returncode, r.stderr.decode(errors='replace')[:3000]))
+        e = BuildError('asn1c failed (%d): %s' % (r.returncode, r.stderr.decode(errors='replace')[:3000]))
+        e.stage, e.returncode, e.wrote = 'asn1c', r.returncode, len(os.listdir(os.path.join(outdir, 'gen')))
+        raise e
     gen = os.path.join(outdir, 'gen')
     lib, cfl, ldf = skel_lib(flavour, defines)
     table = os.path.join(gen, 'verif_table.c')
@@ -288,6 +290,23 @@ def gen_types(module_texts, type_names, outdir, opts=(), flavour='asan', defines
     for o in objs:
         os.unlink(o)
     return dict(lib=glib, skel=lib, cflags=cfl, ldflags=ldf, gen=gen)
+
+
+def cxx_check_headers(gen):
+    """every emitted header must be acceptable to a C++ compiler (g++ -fsyntax-only)"""
+    hs = sorted(glob.glob(os.path.join(gen, '*.h')))
+    if not hs:
+        return
+    tu = os.path.join(gen, 'verif_cxx_check.cpp')
+    with open(tu, 'w') as f:
+        f.write('extern "C" {\n')
+        for h in hs:
+            f.write('#include "%s"\n' % os.path.basename(h))
+        f.write('}\n')
+    r = run(['g++', '-fsyntax-only', '-w', '-I' + os.path.join(REPO, 'skeletons'), '-I' + gen, tu])
+    os.unlink(tu)
+    if r.returncode:
+        raise BuildError('c++ header check failed:\n' + r.stderr.decode(errors='replace')[:3000])
 
 
 def drv_objects(names, flavour='asan', extra_cflags=(), defines=()):
